@@ -40,12 +40,14 @@ pub struct Scenario {
     /// (station index, join time in units of R after the others have converged); empty = all at t=0
     pub late: Vec<(usize, i64)>,
     pub responders: Vec<(u8, u32)>,
+    /// value of the stations' clock at the start of the run (microseconds)
+    pub origin: i64,
 }
 
 impl Scenario {
     pub fn to_json(&self) -> Value {
         json!({"addrs": self.addrs, "hsa": self.hsa, "gap": self.gap, "baud": self.baud, "slot_bits": self.slot_bits, "ttr": self.ttr, "divs": self.divs, "phases": self.phases, "deaf": self.deaf,
-            "loads": self.loads.iter().map(|l| format!("{:?}", l)).collect::<Vec<_>>(), "late": self.late, "responders": self.responders})
+            "loads": self.loads.iter().map(|l| format!("{:?}", l)).collect::<Vec<_>>(), "late": self.late, "responders": self.responders, "origin": self.origin})
     }
     pub fn from_json(v: &Value) -> Scenario {
         let u8s = |x: &Value| -> Vec<u8> { x.as_array().unwrap().iter().map(|y| y.as_u64().unwrap() as u8).collect() };
@@ -62,6 +64,7 @@ impl Scenario {
             loads: v["loads"].as_array().unwrap().iter().map(|l| load(l.as_str().unwrap())).collect(),
             late: v["late"].as_array().unwrap().iter().map(|x| (x[0].as_u64().unwrap() as usize, x[1].as_i64().unwrap())).collect(),
             responders: v["responders"].as_array().unwrap().iter().map(|x| (x[0].as_u64().unwrap() as u8, x[1].as_u64().unwrap() as u32)).collect(),
+            origin: v["origin"].as_i64().unwrap_or(0),
         }
     }
     pub fn build(&self) -> W3Cfg {
@@ -90,6 +93,7 @@ impl Scenario {
             horizon_us: converge_by + stab,
             converge_by_us: converge_by,
             deaf_phy: self.deaf,
+            origin_us: self.origin,
         }
     }
     /// inside the latency envelope of DESIGN 5.5: 3*P_max + 44 bit + one poll of the passer < Tslot
@@ -176,7 +180,7 @@ pub fn scenario_set(tier: Tier, with_loads: bool) -> Vec<Scenario> {
                                         // target rotation time: builder default (HSA*5000 bit) and the builder minimum
                                         let ttrs: Vec<Option<u32>> = if late.is_empty() && gap == 1 && (baud == 1 || tier == Tier::Thorough) { vec![None, Some(256)] } else { vec![None] };
                                         for ttr in ttrs {
-                                            v.push(Scenario { addrs: addrs.clone(), hsa, gap, baud, slot_bits, ttr, divs: divs.clone(), phases: phases.clone(), deaf: false, loads: load.clone(), late: late.clone(), responders: vec![(40, 0)] });
+                                            v.push(Scenario { addrs: addrs.clone(), hsa, gap, baud, slot_bits, ttr, divs: divs.clone(), phases: phases.clone(), deaf: false, loads: load.clone(), late: late.clone(), responders: vec![(40, 0)], origin: 0 });
                                         }
                                     }
                                 }
@@ -200,15 +204,61 @@ pub fn scenario_set(tier: Tier, with_loads: bool) -> Vec<Scenario> {
                 for slot_bits in tier.pick(vec![min_slot], vec![min_slot, min_slot.max(300) + 11]) {
                     let loads: Vec<Vec<Load>> = if with_loads { vec![vec![Load::None], vec![Load::SrdAlways(40)]] } else { vec![vec![Load::None]] };
                     for load in loads {
-                        v.push(Scenario { addrs: addrs.clone(), hsa: 6, gap: 1, baud, slot_bits, ttr: None, divs: divs.clone(), phases: vec![0, 1, 2], deaf: false, loads: load, late: vec![], responders: vec![(40, 0)] });
+                        v.push(Scenario { addrs: addrs.clone(), hsa: 6, gap: 1, baud, slot_bits, ttr: None, divs: divs.clone(), phases: vec![0, 1, 2], deaf: false, loads: load, late: vec![], responders: vec![(40, 0)], origin: 0 });
                     }
                 }
             }
         }
     }
+    // high addresses: bit-set word boundaries (63/64), the top of the address space (125) together with
+    // address 0, time-outs of (6 + 2*125) slot times, GAP sweeps over more than a hundred addresses
+    {
+        let sets: Vec<(u8, Vec<u8>)> = tier.pick(
+            vec![(66, vec![62, 64, 65]), (65, vec![0, 63, 64]), (126, vec![0, 125]), (126, vec![64, 125])],
+            vec![(66, vec![62, 64, 65]), (65, vec![0, 63, 64]), (126, vec![0, 125]), (126, vec![64, 125]), (126, vec![0, 63, 64, 125]), (126, vec![124, 125]), (126, vec![31, 32, 95, 96]), (65, vec![63, 64]), (64, vec![0, 63])],
+        );
+        for (hsa, addrs) in sets {
+            for divs in tier.pick(vec![vec![16, 4]], vec![vec![16], vec![4], vec![16, 4]]) {
+                for phases in tier.pick(vec![vec![0, 1, 2]], vec![vec![0, 1, 2], vec![0]]) {
+                    let loads: Vec<Vec<Load>> = if with_loads { vec![vec![Load::None], vec![Load::SrdAlways(40), Load::None]] } else { vec![vec![Load::None]] };
+                    for load in loads {
+                        v.push(Scenario { addrs: addrs.clone(), hsa, gap: 1, baud: 1, slot_bits: 100, ttr: None, divs: divs.clone(), phases: phases.clone(), deaf: false, loads: load, late: vec![], responders: vec![(40, 0)], origin: 0 });
+                    }
+                }
+            }
+        }
+    }
+    // clock origins
+    {
+        let base: Vec<Scenario> = v
+            .iter()
+            .filter(|sc| sc.hsa == 6 && sc.baud == 1 && sc.gap == 1 && sc.slot_bits == 100 && sc.late.is_empty() && sc.phases.len() == 3 && sc.divs == vec![16] && sc.addrs.len() <= 3 && (tier == Tier::Thorough || (sc.addrs.iter().map(|a| *a as u32).sum::<u32>() % 4 == 1 && sc.ttr.is_none())))
+            .cloned()
+            .collect();
+        for sc in base {
+            v.extend(origin_variants(&sc));
+        }
+    }
     let mut seen = std::collections::HashSet::new();
     v.retain(|sc| seen.insert(sc.to_json().to_string()));
     v
+}
+
+/// The same scenario with the stations' clock starting somewhere else than at zero: an hour before
+/// the origin, just before it (zero is crossed during start-up, or in the stable phase), just before
+/// 2^31 and 2^32 microseconds, at the wrap of a signed 32-bit millisecond tick, after 30 days of
+/// uptime. Nothing a station does may depend on where its clock started (found by a seeded change:
+/// "a new token is a later token" compared against an initial Instant::ZERO).
+pub fn origin_variants(sc: &Scenario) -> Vec<Scenario> {
+    let mid = sc.build().converge_by_us + 50_000;
+    [-3_600_000_000i64, -200_000, -mid, (1i64 << 31) - mid, (1i64 << 32) - 200_000, (1i64 << 32) - mid, (i32::MIN as i64) * 1000, 30 * 86_400 * 1_000_000]
+        .into_iter()
+        .map(|o| {
+            let mut v = sc.clone();
+            v.origin = o;
+            v
+        })
+        .collect()
 }
 
 #[derive(Clone, Copy, PartialEq, Eq, Debug)]
@@ -263,7 +313,7 @@ fn report(which: Which, sc: &Scenario, cfg: &W3Cfg, viols: &[(String, String)], 
         let sig = sig.clone();
         ctx().violation(
             sig,
-            format!("{detail} [stations {:?} HSA={} G={} baud={} slot={} TTR={:?} divs={:?} phases={:?} loads={:?} late={:?} stalls={:?}]", sc.addrs, sc.hsa, sc.gap, BAUDS[sc.baud].1, sc.slot_bits, sc.ttr, sc.divs, sc.phases, sc.loads, sc.late, stalls),
+            format!("{detail} [stations {:?} HSA={} G={} baud={} slot={} TTR={:?} divs={:?} phases={:?} loads={:?} late={:?} stalls={:?} clock origin={}us]", sc.addrs, sc.hsa, sc.gap, BAUDS[sc.baud].1, sc.slot_bits, sc.ttr, sc.divs, sc.phases, sc.loads, sc.late, stalls, sc.origin),
             json!({"world": "w3", "cfg": c.to_json()}),
             (sc.addrs.len() * 10 + stalls.len() * 100 + sc.late.len() * 5) as u64 + sc.hsa as u64,
         );
@@ -766,11 +816,38 @@ pub fn c13_check(run: &W3Run, sc: &Scenario) -> Result<(), (String, String)> {
                 return Err(("c13.message_cycles_after_hold_time".into(), format!("#{a}: {} application requests started after the hold time was over (visit at t={}us, previous receipt {}us, TTR {} bits)", late.len(), r_cur / rate, r_prev / rate, ttr_bits)));
             }
         }
+        // rule 5: the previous token receipt cannot be later than the current one, so whatever the station
+        // takes for its "previous receipt" (there is none at its first visit, or after a claim), at most
+        // one application request may start later than TTR after the token telegram that gave it the
+        // token — from the very first telegram of the run, not only in the stable phase
+        {
+            let mut last_receipt: Option<i64> = None;
+            let mut late = 0u32;
+            for (sa, f, s, e) in &run.log {
+                match f {
+                    Some(crate::refcodec::RFrame::Token { da, .. }) if *da == a => {
+                        last_receipt = Some(*e);
+                        late = 0;
+                    }
+                    Some(fr) if *sa == a && fr.is_request() && !fr.is_fdl_status_req() => {
+                        if let Some(r) = last_receipt {
+                            if *s > r + ttr + 2 * pmax + slot / 4 {
+                                late += 1;
+                                if late > 1 {
+                                    return Err(("c13.message_cycles_after_hold_time.since_this_receipt".into(), format!("#{a}: application request at t={}us, {} bit times after the token telegram that gave it the token (t={}us); TTR is {} bits", s / rate, (s - r) / bit, r / rate, ttr_bits)));
+                                }
+                            }
+                        }
+                    }
+                    _ => {}
+                }
+            }
+        }
         // rule 4: ordinary (low-priority) traffic is not starved either: in a visit without a GAP poll (no
         // time is reserved for one) whose token came back well within the target rotation time, the
         // application is offered an ordinary message cycle
         if !matches!(st.load, Load::None) {
-            let calls: Vec<i64> = run.apps[i].normal_calls.iter().map(|t| t * rate).collect();
+            let calls: Vec<i64> = run.apps[i].normal_calls.iter().map(|t| (t - cfg.origin_us) * rate).collect();
             for w in visits.windows(3) {
                 let (r_prev, reqs_prev) = &w[0];
                 let (r_cur, reqs) = &w[1];
@@ -838,7 +915,7 @@ pub fn run_c13(tier: Tier) -> ! {
                             if phases.len() == 1 && (addrs.len() == 1 || (tier == Tier::Quick && ttr != Some(256))) {
                                 continue;
                             }
-                            let mut sc = Scenario { addrs: addrs.clone(), hsa: 6, gap: 1, baud: 1, slot_bits, ttr, divs: divs.clone(), phases, deaf: false, loads: load.clone(), late: vec![], responders: vec![(40, 11), (41, slot_bits as u32 - 33), (42, 0)] };
+                            let mut sc = Scenario { addrs: addrs.clone(), hsa: 6, gap: 1, baud: 1, slot_bits, ttr, divs: divs.clone(), phases, deaf: false, loads: load.clone(), late: vec![], responders: vec![(40, 11), (41, slot_bits as u32 - 33), (42, 0)], origin: 0 };
                             if !sc.inside_envelope() {
                                 continue;
                             }
@@ -848,6 +925,17 @@ pub fn run_c13(tier: Tier) -> ! {
                     }
                 }
             }
+        }
+    }
+    // clock origins (see origin_variants)
+    {
+        let base: Vec<Scenario> = scenarios
+            .iter()
+            .filter(|sc| sc.slot_bits == 100 && sc.phases.len() == 3 && sc.divs == vec![16] && (tier == Tier::Thorough || (matches!(sc.ttr, Some(256) | Some(2000)) && matches!(sc.addrs.as_slice(), [1, 2] | [2, 4, 5] | [2]))))
+            .cloned()
+            .collect();
+        for sc in base {
+            scenarios.extend(origin_variants(&sc));
         }
     }
     let tally = Tally::new();
@@ -862,7 +950,7 @@ pub fn run_c13(tier: Tier) -> ! {
         let cfg = Arc::new(cfg);
         // quick: one poll stall at every effective poll on the explicit-TTR configurations of up to three stations
         // configurations with the fine poll grid; thorough: on every configuration
-        let quick_k1 = sc.addrs.len() <= 3 && sc.ttr != None && sc.divs == vec![16];
+        let quick_k1 = sc.addrs.len() <= 3 && sc.ttr != None && sc.divs == vec![16] && sc.origin == 0;
         // (thorough: every explicit-TTR configuration except the Tslot/8-only grid)
         let thorough_k1 = tier == Tier::Thorough && sc.divs != vec![8] && sc.ttr.is_some();
         let k = if thorough_k1 || quick_k1 { 1u8 } else { 0 };
@@ -924,7 +1012,7 @@ fn c13_explore(sc: &Scenario, cfg: &Arc<W3Cfg>, run: &mut W3Run, budget: u8, tal
             *tally.outcomes.lock().unwrap().entry(sig.clone()).or_insert(0) += 1;
             let mut c = (**cfg).clone();
             c.stalls = run.stalls_used.clone();
-            ctx().violation(sig, format!("{detail} [stations {:?} loads {:?} TTR {:?} slot {} divs {:?} stalls {:?}]", sc.addrs, sc.loads, sc.ttr, sc.slot_bits, sc.divs, run.stalls_used), json!({"world":"w3","cfg": c.to_json()}), (sc.addrs.len() * 10 + run.stalls_used.len() * 50) as u64);
+            ctx().violation(sig, format!("{detail} [stations {:?} loads {:?} TTR {:?} slot {} divs {:?} stalls {:?} clock origin {}us]", sc.addrs, sc.loads, sc.ttr, sc.slot_bits, sc.divs, run.stalls_used, sc.origin), json!({"world":"w3","cfg": c.to_json()}), (sc.addrs.len() * 10 + run.stalls_used.len() * 50) as u64);
         }
     }
 }
@@ -1032,7 +1120,7 @@ pub fn run_c06(tier: Tier) -> ! {
                     if tier == Tier::Quick && deaf && load != Load::None && addrs.len() > 3 {
                         continue;
                     }
-                    scenarios.push(Scenario { addrs: addrs.clone(), hsa: *hsa, gap: *gap, baud: 1, slot_bits: 300, ttr: if load == Load::None { None } else { Some(1500) }, divs: divs.clone(), phases: phases.clone(), deaf, loads: vec![load], late: vec![], responders: vec![] });
+                    scenarios.push(Scenario { addrs: addrs.clone(), hsa: *hsa, gap: *gap, baud: 1, slot_bits: 300, ttr: if load == Load::None { None } else { Some(1500) }, divs: divs.clone(), phases: phases.clone(), deaf, loads: vec![load], late: vec![], responders: vec![], origin: 0 });
                 }
             }
         }
@@ -1042,7 +1130,7 @@ pub fn run_c06(tier: Tier) -> ! {
         for deaf in [false, true] {
             for phases in [vec![0i64, 0, 0], vec![0, 1, 2]] {
                 for gap in [1u8, 2] {
-                    scenarios.push(Scenario { addrs: vec![0, 3, 7], hsa: 10, gap, baud: 1, slot_bits: 100, ttr: None, divs: vec![52], phases: phases.clone(), deaf, loads: vec![Load::None], late: vec![], responders: vec![] });
+                    scenarios.push(Scenario { addrs: vec![0, 3, 7], hsa: 10, gap, baud: 1, slot_bits: 100, ttr: None, divs: vec![52], phases: phases.clone(), deaf, loads: vec![Load::None], late: vec![], responders: vec![], origin: 0 });
                 }
             }
         }
@@ -1051,7 +1139,7 @@ pub fn run_c06(tier: Tier) -> ! {
         // (development aid) only the scenarios of an experiment: "addrs;hsa;slot;div"
         let f: Vec<&str> = x.split(';').collect();
         let addrs: Vec<u8> = f[0].split(',').map(|a| a.parse().unwrap()).collect();
-        scenarios = vec![Scenario { addrs, hsa: f[1].parse().unwrap(), gap: f.get(4).map(|g| g.parse().unwrap()).unwrap_or(1), baud: 1, slot_bits: f[2].parse().unwrap(), ttr: None, divs: vec![f[3].parse().unwrap()], phases: if f.get(6) == Some(&"s") { vec![0, 1, 2] } else { vec![0, 0, 0] }, deaf: f.get(5).map(|d| *d == "1").unwrap_or(false), loads: vec![Load::None], late: vec![], responders: vec![] }];
+        scenarios = vec![Scenario { addrs, hsa: f[1].parse().unwrap(), gap: f.get(4).map(|g| g.parse().unwrap()).unwrap_or(1), baud: 1, slot_bits: f[2].parse().unwrap(), ttr: None, divs: vec![f[3].parse().unwrap()], phases: if f.get(6) == Some(&"s") { vec![0, 1, 2] } else { vec![0, 0, 0] }, deaf: f.get(5).map(|d| *d == "1").unwrap_or(false), loads: vec![Load::None], late: vec![], responders: vec![], origin: 0 }];
     }
     let tally = Tally::new();
     scenarios.par_iter().for_each(|sc| {
@@ -1249,7 +1337,7 @@ pub fn run_c06(tier: Tier) -> ! {
     let races: Vec<(Vec<u8>, u8)> = vec![(vec![1, 2], 6), (vec![0, 3], 6), (vec![2, 4, 5], 6)];
     races.par_iter().for_each(|(addrs, hsa)| {
         for off_q in tier.pick(vec![0i64, 2], vec![-2, -1, 0, 1, 2, 3]) {
-            let sc = Scenario { addrs: addrs.clone(), hsa: *hsa, gap: 1, baud: 1, slot_bits: 300, ttr: None, divs: vec![16], phases: vec![0, 1, 2], deaf: false, loads: vec![Load::None], late: vec![], responders: vec![] };
+            let sc = Scenario { addrs: addrs.clone(), hsa: *hsa, gap: 1, baud: 1, slot_bits: 300, ttr: None, divs: vec![16], phases: vec![0, 1, 2], deaf: false, loads: vec![Load::None], late: vec![], responders: vec![], origin: 0 };
             let mut cfg = sc.build();
             let slot_us = cfg.slot_us();
             // station 0 (lowest address) joins later by exactly the difference of the time-outs
@@ -1300,7 +1388,7 @@ pub fn c11_forged_offers(tier: Tier) -> (u64, u64) {
     let polls = AtomicU64::new(0);
     sets.par_iter().for_each(|(addrs, hsa)| {
         for divs in tier.pick(vec![vec![16i64]], vec![vec![16], vec![4], vec![16, 4]]) {
-            let sc = Scenario { addrs: addrs.clone(), hsa: *hsa, gap: 1, baud: 1, slot_bits: 300, ttr: None, divs: divs.clone(), phases: vec![0, 1, 2], deaf: false, loads: vec![Load::None], late: vec![], responders: vec![] };
+            let sc = Scenario { addrs: addrs.clone(), hsa: *hsa, gap: 1, baud: 1, slot_bits: 300, ttr: None, divs: divs.clone(), phases: vec![0, 1, 2], deaf: false, loads: vec![Load::None], late: vec![], responders: vec![], origin: 0 };
             let cfg = Arc::new(sc.build());
             let mut base = W3Run::new(&cfg);
             while base.now < cfg.converge_by_us && base.panic.is_none() {
